@@ -1,12 +1,22 @@
 (** C05 - generic definitions are recovered as generics (source round trip).
 
-    Full statement (C05_skeleton_is_source, under construction): for a program of generic
-    definitions, the registry scale-info derives from it and every coincidence-free
-    instantiation ([instantiation_cf]), the item generated at the definition's path equals
-    [expected_item] of the SOURCE definition (up to derives and docs), whatever instantiation
-    comes first.  Until that theorem is pinned it is decided per generated program by the
-    checker [prop_source_roundtrip] (Corr/RunC05.v) on the implementation's observed output.
-    Pinned here: what [expected_item] -- the specification -- says. *)
+    Full statement of the property: for a program of generic definitions, the registry
+    scale-info derives from it and every coincidence-free instantiation ([instantiation_cf]), the
+    item generated at the definition's path equals [expected_item] of the SOURCE definition (up to
+    derives and docs), whatever instantiation comes first.
+    PROVED (below): everything up to and including the IR - [C05_skeleton_is_source]: the erased
+    IR of every coincidence-free instantiation is [ir_of_source] of the source definition (all of
+    [src] except a Cow directly inside a Cow); the field types of that IR read back as parsed
+    types are [field_pty] of the source fields ([C05_fields_read_as_source]), i.e. the field types
+    of [expected_item]; all instantiations give one erased IR ([C05_one_item]); program registries
+    are skeleton-consistent ([C05_program_skeleton_consistent]), so the item kept for the path
+    (C01_lookup: the IR of the FIRST instantiation) represents every instantiation faithfully
+    ([C05_program_faithful]).
+    MISSING for the full statement: the emission step as a theorem - that the tokens [emit_module]
+    prints for [ir_of_source d], parsed by Checkers/Parse.v, are [expected_item d] (marker field,
+    attributes, item syntax).  That step is decided per generated program by the checker
+    [prop_source_roundtrip] (Corr/RunC05.v) on the implementation's observed output.
+    First: what [expected_item] -- the specification -- says. *)
 From Coq Require Import List NArith String Bool.
 From V Require Import Base.Strings Model.Registry Model.Program Checkers.Parse.
 Import ListNotations.
